@@ -81,7 +81,7 @@ Definition C17_prephased_untouched_full_statement (rl : rule) : Prop :=
       nth_error (v_calls r') s = Some c.
 
 (* The code before the repair (rule Cur; /repo before commit f97203d) refutes it: record 5 below is phased 1|0:3 in the input, no tagged
-   read covers it, and it comes out as 0/1:3 (unphased by the shared writer). *)
+   read covers it, and it comes out as 0/1:. (unphased by the shared writer). *)
 Theorem C17_prephased_untouched_refuted :
   exists pr ref inp readss out i r r' s c,
     NoDup (map v_pos inp) /\
@@ -122,8 +122,8 @@ Print Assumptions C17_prephased_untouched_fixed.
 
 (* The clause as the property text has it — *every* call written with `|` in the input comes out
    unchanged — is still refuted by the repaired rule (the code now in /repo): the shared writer's
-   _remove_existing_phasing unphases what VcfReader does not regard as phased (homozygous 1|1:5 -> 1/1:5;
-   0|0:5 on a record without ALT -> 0/0:5), and a heterozygous 0|1 without a PS key is put back with PS = 0. *)
+   _remove_existing_phasing unphases what VcfReader does not regard as phased (homozygous 1|1:5 -> 1/1:.;
+   0|0:5 on a record without ALT -> 0/0:.), and a heterozygous 0|1 without a PS key is put back with PS = 0. *)
 Definition C17_prephased_any_untouched_full_statement (rl : rule) : Prop :=
   forall pr ref mav recs nalts readss out,
     haplotagphase_file rl pr ref mav recs nalts readss = Ok out ->
@@ -133,12 +133,12 @@ Definition C17_prephased_any_untouched_full_statement (rl : rule) : Prop :=
       nth_error (v_calls r') s = Some c.
 Theorem C17_prephased_unrecognised_refuted :
   (exists out, haplotagphase Fixed default_params [0;1;2;3] [mkRec 2 true true [mkCall [Some 1; Some 1] true (Some 5)]] [[]]
-               = Ok out /\ out = [mkRec 2 true true [mkCall [Some 1; Some 1] false (Some 5)]]) /\
+               = Ok out /\ out = [mkRec 2 true true [mkCall [Some 1; Some 1] false None]]) /\
   (exists out, haplotagphase Fixed default_params [0;1;2;3] [mkRec 2 true false [mkCall [Some 0; Some 1] true None]] [[]]
                = Ok out /\ out = [mkRec 2 true true [mkCall [Some 0; Some 1] true (Some 0)]]) /\
   (exists out, haplotagphase_file Fixed default_params [0;1;2;3] true
                  [mkRec 2 true true [mkCall [Some 0; Some 0] true (Some 5)]] [0] [[]]
-               = Ok out /\ out = [mkRec 2 true true [mkCall [Some 0; Some 0] false (Some 5)]]).
+               = Ok out /\ out = [mkRec 2 true true [mkCall [Some 0; Some 0] false None]]).
 Proof. exact prephased_unrecognised_refuted. Qed.
 Print Assumptions C17_prephased_unrecognised_refuted.
 
